@@ -51,16 +51,20 @@ def run():
     at_bus = lambda b: [l for l, f, t in zip(lines, ss.Line.bus1.v, ss.Line.bus2.v) if b in (f, t)]      # noqa
     patterns = [[], [lines[l0]], [lines[0]], [lines[3], lines[7]], at_bus(ss.Bus.idx.v[11]), at_bus(ss.Bus.idx.v[13]), at_bus(ss.Bus.idx.v[11]) + at_bus(ss.Bus.idx.v[12]),
                 at_bus(ss.Bus.idx.v[7]), [lines[1], 'TWIN'], at_bus(ss.Bus.idx.v[0])]
-    for off in patterns:
+    # two-bus pockets cut from the rest (the pocket is found first and is the smaller island; with and without the slack in it)
+    for pocket in ((ss.Bus.idx.v[0], ss.Bus.idx.v[1]), (ss.Bus.idx.v[11], ss.Bus.idx.v[12])):
+        patterns.append([l for l, f, t in zip(lines, ss.Line.bus1.v, ss.Line.bus2.v) if (f in pocket) != (t in pocket)])
+    # every pattern once silently and once with the summary printed (the default of System.connectivity and what PFlow.run uses)
+    for off, info in [(p, i) for p in patterns for i in (False, True)]:
         n += 1
         for l in lines:
             ss.Line.alter('u', l, 0 if l in off else 1)
-        ss.connectivity(info=False)
+        ss.connectivity(info=info)
         edges = [(uid[f], uid[t]) for l, f, t, u in zip(lines, ss.Line.bus1.v, ss.Line.bus2.v, ss.Line.u.v) if u == 1]
         iso, isl = components(ss.Bus.n, edges)
         got_iso = sorted(int(i) for i in ss.Bus.islanded_buses)
         got_isl = sorted(sorted(int(i) for i in s) for s in ss.Bus.island_sets)
-        what = {'case': 'ieee14_full + a twin (listed last) of the bridge %s' % lines[l0], 'lines out of service': off}
+        what = {'case': 'ieee14_full + a twin (listed last) of the bridge %s' % lines[l0], 'lines out of service': off, 'call': 'System.connectivity(info=%r)' % info}
         if got_iso != iso or (got_isl != isl and not (len(isl) == 1 and got_isl in ([], isl))):
             return n, dict(what, observed='isolated buses %r, islands %r; the branch graph gives %r, %r' % (got_iso, got_isl, iso, isl))
         slack = [uid[b] for b, u in zip(ss.Slack.bus.v, ss.Slack.u.v) if u == 1]
